@@ -441,4 +441,279 @@ def Obj.hk (heap : Nat → String) : Obj → SHKey
   | .partition p => .plain p.hk
   | .weighting w => .plain (w.hk heap)
 
+/-! ## element creation (`space.element(inp)`) -/
+
+/-- What is offered to `element`: the attributes the code looks at. -/
+inductive Inp
+  /-- a `NumpyTensor` / `DiscretizedSpaceElement`: its `.space`, and shape / dtype / values of
+  `np.asarray(inp)` -/
+  | elem (sp : Space) (shape : List Nat) (dt : DType) (vals : List Rat)
+  /-- an array-like without `.space` (`nd`: it is an `ndarray`, so no-copy wrapping is
+  observable) -/
+  | arr (nd : Bool) (shape : List Nat) (dt : DType) (vals : List Rat)
+  /-- a `ProductSpaceElement`: its `.space` and its parts -/
+  | pelem (sp : Space) (parts : List Inp)
+  /-- a plain Python sequence -/
+  | seq (parts : List Inp)
+  deriving Repr
+
+def Inp.space? : Inp → Option Space
+  | .elem sp _ _ _ => some sp
+  | .pelem sp _ => some sp
+  | _ => none
+
+inductive Res
+  /-- the input object itself is returned -/
+  | same
+  /-- a new `NumpyTensor` in the space: values, and whether it shares memory with the input -/
+  | tensor (dt : DType) (shape : List Nat) (vals : List Rat) (shares : Bool)
+  /-- a new `DiscretizedSpaceElement`; `wraps`: its `.tensor` IS the input object -/
+  | discr (wraps : Bool) (inner : Res)
+  /-- a new `ProductSpaceElement`; `sameParts`: its parts ARE the input's items -/
+  | prod (sameParts : Bool) (parts : List Res)
+  | errValue   -- ValueError (shape / length mismatch)
+  | errType    -- TypeError
+  deriving Repr
+
+/-- Tables about dtypes that are regenerated from the live module (`Gen/DTypeTables.lean`). -/
+structure DTables where
+  r2c : DType → Option DType
+  c2r : DType → Option DType
+  isNumeric : DType → Bool
+  isInt : DType → Bool
+  isReal : DType → Bool
+  isRealFloating : DType → Bool
+  isComplexFloating : DType → Bool
+  isFloating : DType → Bool
+  available : DType → Bool
+
+/-- truncation toward zero (C cast float → integer) -/
+def truncRat (r : Rat) : Rat := if r < 0 then -((-r).floor : Int) else (r.floor : Int)
+
+/-- `np.array(values, dtype=d)` on exactly representable real inputs: integer kinds truncate,
+`bool` tests against zero, float / complex kinds keep the value. -/
+def castVal (T : DTables) (d : DType) (r : Rat) : Rat :=
+  if d = .bool then (if r = 0 then 0 else 1)
+  else if T.isInt d then truncRat r
+  else r
+
+/-- `ndmin=self.ndim`: NumPy prepends axes of length 1. -/
+def padShape (ndim : Nat) (shape : List Nat) : List Nat :=
+  List.replicate (ndim - shape.length) 1 ++ shape
+
+/-- array view (shape, dtype, values, is-ndarray) of an input, if it has one -/
+def Inp.view? : Inp → Option (Bool × List Nat × DType × List Rat)
+  | .elem _ sh dt v => some (true, sh, dt, v)
+  | .arr nd sh dt v => some (nd, sh, dt, v)
+  | _ => none
+
+/-- `NumpyTensorSpace.element(inp, order=…)` for `inp is not None` (`forced`: an `order` was
+given): `inp in self and order is None → inp`; otherwise `np.array(inp, copy=False,
+dtype=self.dtype, ndmin=self.ndim, order=order)` and the shape test. -/
+def TSpace.element (T : DTables) (S : TSpace) (forced : Bool) (inp : Inp) : Res :=
+  if (Space.tensor S).contains inp.space? && !forced then .same
+  else match inp.view? with
+    | none => (match inp with
+        | .pelem _ _ => .errType   -- `ProductSpaceElement.__array__()` accepts no `dtype`
+        | _ => .errValue)          -- ragged sequence: NumPy raises ValueError
+    | some (nd, sh, dt, v) =>
+      if padShape S.shape.length sh = S.shape then
+        .tensor S.dtype S.shape (v.map (castVal T S.dtype)) (nd && decide (dt = S.dtype))
+      else .errValue
+
+/-- `DiscretizedSpace.element(inp, order=…)` for non-callable `inp is not None`. -/
+def Discr.element (T : DTables) (S : Discr) (forced : Bool) (inp : Inp) : Res :=
+  if (Space.discr S).contains inp.space? && !forced then .same
+  else if (Space.tensor S.tspace).contains inp.space? && !forced then .discr true .same
+  else match S.tspace.element T forced inp with
+    | .errValue => .errValue
+    | .errType => .errType
+    | r => .discr false r
+
+/-- `len(inp)` / `list(inp)` as `ProductSpace.element` uses them: the parts of a product
+space element, the items of a sequence, the sub-arrays along the first axis of an array-like
+(elements of tensor spaces offered to a product space are outside the model). -/
+def Inp.parts? : Inp → Option (List Inp)
+  | .pelem _ ps => some ps
+  | .seq ps => some ps
+  | .arr nd (n :: rest) dt vals =>
+      let k := rest.foldl (· * ·) 1
+      some ((List.range n).map fun i => .arr nd rest dt ((vals.drop (i * k)).take k))
+  | _ => none
+
+mutual
+/-- `space.element(inp)` (`order=None`, `cast=True`).  `ProductSpace.element`: `inp in self →
+inp`; `len(inp) != len(self) → ValueError`; all items already elements of the respective
+component → wrap them; otherwise delegate item-wise to the components' `element`. -/
+def Space.element (T : DTables) : Space → Inp → Res
+  | .tensor S, inp => S.element T false inp
+  | .discr S, inp => S.element T false inp
+  | .prod l w f, inp =>
+    if (Space.prod l w f).contains inp.space? then .same
+    else match inp.parts? with
+      | none => .errType      -- no usable `len`: outside the model
+      | some ps =>
+        if ps.length ≠ l.length then .errValue
+        else if Space.allMember l ps then .prod true []
+        else Space.elementL T l ps []
+/-- `all(isinstance(v, LinearSpaceElement) and v.space == space for v, space in zip(…))` -/
+def Space.allMember : List Space → List Inp → Bool
+  | s :: l, p :: ps => (match p.space? with
+      | none => false
+      | some X => X.eqI s) && Space.allMember l ps
+  | _, _ => true
+/-- `[space.element(arg) for arg, space in zip(inp, self.spaces)]`: the first failing
+component raises. -/
+def Space.elementL (T : DTables) : List Space → List Inp → List Res → Res
+  | s :: l, p :: ps, acc => match Space.element T s p with
+      | .errValue => .errValue
+      | .errType => .errType
+      | r => Space.elementL T l ps (r :: acc)
+  | _, _, acc => .prod false acc.reverse
+end
+
+/-! ## derived spaces -/
+
+/-- the weighting a space gets when none is passed on: constant 1.0, exponent 2.0 -/
+def defaultW (c : WCls) : Weighting := .const c (.fin 1) (.fin 2)
+
+/-- `TensorSpace.astype(dtype)` / `_astype` on descriptors (`none` = raises).
+`castOk` = `np.can_cast(weighting.array.dtype, dtype)` (consulted by the constructor for
+array weightings only).  The weighting object is passed on for floating-point targets only;
+otherwise the new space is unweighted with exponent 2. -/
+def TSpace.astype (T : DTables) (t : TSpace) (dt : DType) (castOk : Bool) : Option TSpace :=
+  if dt = t.dtype then some t
+  else if !T.available dt then none
+  else if T.isFloating dt then
+    (match t.w with
+     | .array _ _ _ => if castOk then some ⟨t.shape, dt, t.w⟩ else none
+     | _ => some ⟨t.shape, dt, t.w⟩)
+  else some ⟨t.shape, dt, defaultW .np⟩
+
+/-- `self.real_dtype` as set in `TensorSpace.__init__` (`none`: attribute undefined / None) -/
+def realDtype (T : DTables) (d : DType) : Option DType :=
+  if T.isReal d then some d else if T.isComplexFloating d then T.c2r d else none
+def complexDtype (T : DTables) (d : DType) : Option DType :=
+  if T.isReal d then T.r2c d else if T.isComplexFloating d then some d else none
+
+/-- `real_space`: `ValueError` for non-numeric dtypes, else `astype(real_dtype)`. -/
+def TSpace.realSpace (T : DTables) (t : TSpace) (castOk : Bool) : Option TSpace :=
+  if !T.isNumeric t.dtype then none
+  else match realDtype T t.dtype with
+    | none => none
+    | some d => t.astype T d castOk
+/-- `complex_space`: `astype(complex_dtype)`; `complex_dtype` is `None` for integer dtypes and
+`astype(None)` raises. -/
+def TSpace.complexSpace (T : DTables) (t : TSpace) (castOk : Bool) : Option TSpace :=
+  if !T.isNumeric t.dtype then none
+  else match complexDtype T t.dtype with
+    | none => none
+    | some d => t.astype T d castOk
+
+/-- `DiscretizedSpace._astype`: `tspace.astype(dtype)` on the same partition and labels. -/
+def Discr.astype (T : DTables) (d : Discr) (dt : DType) (castOk : Bool) : Option Discr :=
+  (d.tspace.astype T dt castOk).map fun t => { d with dtype := t.dtype, w := t.w }
+
+/-- field of a space as `LinearSpace.field` reports it -/
+def Space.field (T : DTables) : Space → Fld
+  | .tensor t => if T.isReal t.dtype then .real else if T.isComplexFloating t.dtype then .complex
+                 else .none
+  | .discr d => if T.isReal d.dtype then .real else if T.isComplexFloating d.dtype then .complex
+                else .none
+  | .prod _ _ f => f
+
+/-- `ProductSpace(*spaces)` without further arguments: unweighted, exponent 2, field of the
+first space; raises for an empty list. -/
+def mkProd (T : DTables) (l : List Space) : Option Space :=
+  match l with
+  | [] => none
+  | s :: _ => some (.prod l (defaultW .ps) (s.field T))
+
+/-- `ProductSpace(*spaces, field=f)` -/
+def mkProdF (l : List Space) (f : Fld) : Space := .prod l (defaultW .ps) f
+
+/-- common dtype of the components (`ProductSpace.dtype`; `none` = AttributeError) -/
+def commonDtype : List Space → Option DType
+  | [] => none   -- `dtypes[0]` raises IndexError inside the property: getattr default applies
+  | .tensor t :: l => if l.all (fun s => match s with
+        | .tensor t' => t'.dtype = t.dtype | .discr d' => d'.dtype = t.dtype | _ => false)
+      then some t.dtype else none
+  | .discr d :: l => if l.all (fun s => match s with
+        | .tensor t' => t'.dtype = d.dtype | .discr d' => d'.dtype = d.dtype | _ => false)
+      then some d.dtype else none
+  | _ => none
+
+mutual
+/-- `space.astype(dtype)` for all space classes.  `ProductSpace.astype`: `self` if the common
+dtype already is `dtype`, else `ProductSpace(*[s.astype(dtype) for s in self.spaces])` — the
+weighting and exponent of the product space are NOT passed on.  `castOk` is taken to hold
+for every array-weighted component (the harness only offers such cases). -/
+def Space.astype (T : DTables) : Space → DType → Option Space
+  | .tensor t, dt => (t.astype T dt true).map .tensor
+  | .discr d, dt => (d.astype T dt true).map .discr
+  | .prod l w f, dt =>
+    if Space.dtypeIs l dt then some (.prod l w f)
+    else match Space.astypeL T l dt with
+      | none => none
+      | some l' => mkProd T l'
+def Space.astypeL (T : DTables) : List Space → DType → Option (List Space)
+  | [], _ => some []
+  | s :: l, dt => match Space.astype T s dt, Space.astypeL T l dt with
+      | some s', some l' => some (s' :: l')
+      | _, _ => none
+/-- `dtype == getattr(self, 'dtype', object)` for a product space with components `l` -/
+def Space.dtypeIs : List Space → DType → Bool
+  | [], _ => false
+  | l, dt => Space.dtypeAll l dt
+def Space.dtypeAll : List Space → DType → Bool
+  | [], _ => true
+  | .tensor t :: l, dt => decide (t.dtype = dt) && Space.dtypeAll l dt
+  | .discr d :: l, dt => decide (d.dtype = dt) && Space.dtypeAll l dt
+  | .prod l' _ _ :: l, dt => Space.dtypeIs l' dt && Space.dtypeAll l dt
+end
+
+/-! ### indexing -/
+
+/-- Python slice `start:stop:step` already normalised by `slice.indices(len)`. -/
+structure NSlice where
+  start : Nat
+  count : Nat
+  step : Int
+  deriving DecidableEq, Repr
+
+/-- items selected by a normalised slice / by a list of (non-negative, in-range) indices -/
+def selSlice {α} (l : List α) (s : NSlice) : List α :=
+  (List.range s.count).filterMap fun (k : Nat) => l[(((s.start : Int) + (k : Int) * s.step).toNat)]?
+def selList {α} (l : List α) (idx : List Nat) : Option (List α) := idx.mapM fun i => l[i]?
+
+inductive PIdx
+  | int (i : Nat)
+  | slice (s : NSlice)
+  | list (idx : List Nat)
+  deriving Repr
+
+/-- `ProductSpace.__getitem__` for an integer, slice or list index: a component, or
+`ProductSpace(*selected, field=self.field)` — the weighting / exponent of `self` is NOT
+passed on. -/
+def Space.pindex : Space → PIdx → Option Space
+  | .prod l _ _, .int i => l[i]?
+  | .prod l _ f, .slice s => some (mkProdF (selSlice l s) f)
+  | .prod l _ f, .list idx => (selList l idx).map fun l' => mkProdF l' f
+  | _, _ => none
+
+/-- `NumpyTensorSpace.byaxis[indices]` for spaces without array weighting: the shape entries
+selected, same dtype, same weighting object.  (An integer index yields a 1-axis space.) -/
+def TSpace.byaxis (t : TSpace) : PIdx → Option TSpace
+  | .int i => (t.shape[i]?).map fun n => ⟨[n], t.dtype, t.w⟩
+  | .slice s => some ⟨selSlice t.shape s, t.dtype, t.w⟩
+  | .list idx => (selList t.shape idx).map fun sh => ⟨sh, t.dtype, t.w⟩
+
+/-- Space of `x[indices]` for a `NumpyTensor` `x` when the result is not a scalar:
+`type(space)(arr.shape, dtype, exponent=space.exponent, weighting=space.weighting)`.
+The constructor rejects an array weighting whose shape differs from the new shape. -/
+def TSpace.indexSpace (t : TSpace) (newShape : List Nat) : Option TSpace :=
+  match t.w with
+  | .array _ _ _ => if newShape = t.shape then some ⟨newShape, t.dtype, t.w⟩ else none
+  | _ => some ⟨newShape, t.dtype, t.w⟩
+
 end OdlModel.Spaces
